@@ -108,12 +108,12 @@ func H_C17_Calls() {
 	}
 	// the reference map was only changed by accepted calls: every observation point must agree with it
 	h.checkReads("calls/reads-directly")
-	if vrt.Symbolic() {
-		// kill right after the call, recover, look again
+	{
+		// kill right after the call, recover, look again (natively: a copy of the directory as it is now -
+		// every completed system call persists in the kill model)
 		live := h.fs
-		img := live.CrashImage(len(live.Journal), nil)
-		img.Activate()
-		h2 := &vDB{fs: img, dir: h.dir, ref: h.ref}
+		img, idir := h.stopImage()
+		h2 := &vDB{fs: img, dir: idir, ref: h.ref}
 		oerr := h2.open(MemstoreSizeBytes(math.MaxUint64), WriteBufferSizeBytes(64), ReadBufferSizeBytes(64))
 		if oerr != nil {
 			vrt.Note("open after kill: " + oerr.Error())
@@ -121,9 +121,16 @@ func H_C17_Calls() {
 		vrt.Assert(oerr == nil, "calls/open-after-kill-succeeds")
 		if oerr == nil {
 			h2.checkReads("calls/reads-after-kill-and-recovery")
+			if !vrt.Symbolic() {
+				h2.close()
+			}
 		}
-		live.Activate()
-		vrt.OnBlock(func(what string) { h.onBlock(what) })
+		if vrt.Symbolic() {
+			live.Activate()
+			vrt.OnBlock(func(what string) { h.onBlock(what) })
+		} else {
+			img.Cleanup()
+		}
 	}
 	h.forceRotation()
 	h.checkReads("calls/reads-after-flush")
